@@ -191,8 +191,10 @@ def reference(ctx):
     for e in aps:
         if rdv is not None and e.name == lists.get("md", "$")[1:]:
             v = e.value.single_atom()[1][0]
-            sig = [a for a in T.atoms_of(v, "loopvar") if a[2].startswith("$")]
-            ok = len(set(sig)) == 1 and T.same(v, atom(("call", "sum", (atom(sig[0]),), ())) / atom(("call", "len", (atom(sig[0]),), ()))) if sig else False
+            sums = {a for a in T.walk(v) if a[0] == "call" and a[1] == "sum" and len(a[2]) == 1}
+            S_list = next(iter(sums))[2][0] if len(sums) == 1 else None
+            sview = q.seq_view(tr, S_list) if S_list is not None else None   # one signal per sample of the fold, loop or comprehension
+            ok = sview is not None and T.same(v, atom(("call", "sum", (S_list,), ())) / atom(("call", "len", (S_list,), ())))
             ctx.ob("FRM", "MD3.calculate_distribution_statistics", "margin density of a fold = mean of its samples' signals", ok, q.short(v, 100), e)
     tm = ctx.trace("MD3", "calculate_margin_inclusion_signal")
     ra = tm.retval
